@@ -223,6 +223,7 @@ def run_det(case, stats):
     model = case["model"]
     grid = np.array(case["grid"], dtype=float)
     M = rm.to_bioscrape(model)
+    eng.reinitialise(M, case.get("reinit", 0))
     viols = []
     try:
         res = py_simulate_model(grid, Model=M, stochastic=False, return_dataframe=False)
@@ -331,6 +332,10 @@ def shrink(case):
     m = case["model"]
     if case.get("script"):
         yield dict(case, script=[])
+    if case.get("prelude"):
+        yield dict(case, prelude=None)
+    if case.get("reinit"):
+        yield dict(case, reinit=case["reinit"] - 1)
     # drop observers / rules one at a time
     for i, ru in enumerate(m["rules"]):
         used = ru["target"] in ("kr", "ksw")
